@@ -68,7 +68,7 @@ impl GenCfg {
             methods: true,
             reentrant_bias: 1,
             avoid_stmt_after_ret: true,
-            avoid_leading_do_block: true,
+            avoid_leading_do_block: false,
             avoid_unused_andor: true,
             avoid_str_tuple_arith: true,
             avoid_global_temps: false,
